@@ -32,10 +32,10 @@ class Convert(Contract):
     layer = 5
     uses = LOWER
     props = {'code_eq_Q': ['C10', 'C05', 'C03'], 'format': ['C10', 'C02'], 'shape': ['C10'], 'source_unchanged': ['C10', 'C20'],
-             'flag_overflow': ['C04'], 'flag_underflow': ['C04'], 'in_range': ['C02'], 'separate_state': ['C20'],
+             'flag_overflow': ['C04', 'C05'], 'flag_underflow': ['C04', 'C05'], 'in_range': ['C02'], 'separate_state': ['C20'],
              'no_exception': ['C10'], 'meta_n_int': ['C02'], 'meta_limits': ['C02'], 'meta_status_keys': ['C02', 'C04'],
              'others_unchanged': ['C10'], 'governing_config': ['C10'],
-             'readback': ['C16', 'C10', 'C01'], 'vdtype_consistent': ['C16', 'C02'], 'flag_inaccuracy': ['C04']}
+             'readback': ['C16', 'C10', 'C01'], 'vdtype_consistent': ['C16', 'C02'], 'flag_inaccuracy': ['C04', 'C05']}
 
     def configs(self, tier):
         fm = conv_formats(tier)
